@@ -125,10 +125,14 @@ LEVEL = {
              "contributes one duration >= 1 per state on both the speed and the alignment path (so F >= labels x states); MLPG returns one row per frame on "
              "well-formed streams (with a machine-checked counterexample showing the GV switch must cover every state); totality in full generality "
              "(synth_total): for every well-formed engine input, two or three streams, speed or alignment, no panic site is reachable, every state lasts at "
-             "least one frame and the waveform has exactly fperiod x F samples (the two-stream case panicked before fix 0c7762d); a vocoder frame is fperiod samples. The composition is tied to Engine::generator/synthesize by "
+             "least one frame and the waveform has exactly fperiod x F samples (the two-stream case panicked before fix 0c7762d); a vocoder frame is fperiod samples. "
+             "Lifted to the whole library (voices_synth_total / bytes_to_waveform_total): with tree selection, voice interpolation, header defaults and any setter history inside the theorem, "
+             "every voice set the reader accepted that passes the computable supportedVoice / compatibleVoice checks (run by the driver on the files of every end-to-end case, bundled voice included) synthesizes "
+             "any label sequence to exactly frame_period x F samples, F >= labels x states; a machine-checked counterexample shows the checks are needed (window count mismatch, replayed on the code). "
+             "The composition is tied to Engine::generator/synthesize by "
              "feeding the dumped Models outputs to the model and comparing durations, all three trajectories (hook) and the waveform on bundled and generated "
              "voices. Partial: the finiteness clause is about IEEE overflow and is decided by execution (implementation and bit-identical model).",
-        note="Trusted: Lean kernel; axioms ⊆ {propext, Classical.choice, Quot.sound}; tree selection/interpolation enter as dumped inputs (C04/C10 cover them); finiteness is test-level.",
+        note="Trusted: Lean kernel; axioms ⊆ {propext, Classical.choice, Quot.sound}; the from-the-bytes theorem is about the Lean reader and selection model, tied to the loader by the e2e / C04 correspondence; finiteness is test-level.",
     ),
     "C11": dict(
         text="Theorems: a frame is voiced iff its state's voicing weight exceeds the stream's threshold; raising the threshold only removes voiced frames; unvoiced "
@@ -174,7 +178,7 @@ LEVEL = {
     "C04": dict(
         text="Theorems: HTS wildcard matching equals the declarative Matches relation; a question holds iff one pattern matches; a single-leaf tree selects its "
              "PDF; on every well-formed tree the loader's index form walked by search_node returns exactly what walking the file's own tree by node id returns "
-             "(yes -> second child, no -> first); from_linear's layout; engine defaults equal the header values. The byte-level reader is tied to the loader by "
+             "(yes -> second child, no -> first); from_linear's layout; engine defaults equal the header values; every Gaussian selection can return from an accepted file is entry id-1 of the PDF list of the tree whose declared state matches and has the announced layout; accepted forward-referencing trees are total. The byte-level reader is tied to the loader by "
              "parsing the same files: the driver reads the .htsvoice itself, walks the file's trees with glob on the label text and compares tree index, PDF "
              "index and every float32 entry bit for bit with Model::get_index/get_parameter, plus metadata, options, windows and defaults, on the bundled voice "
              "and on generated voices written by the harness's own .htsvoice writer.",
@@ -184,7 +188,7 @@ LEVEL = {
         text="Theorem parse_no_panic: for every byte sequence the guarded reader model — which mirrors each slice, reference lookup, size product and digit "
              "accumulation of the loader as an explicit site — returns a voice or an error; the same sites are panics in the unguarded (pinned) model, each with a "
              "machine-checked witness. Size bounds (streams_/models_/windows_bounded_by_file): whatever the header claims, an accepted voice has no more streams, questions, trees, tree "
-             "rows, PDF words, windows or window coefficients than the file has bytes. The defects (F6, F9) were established by the fault enumeration on the real loader and repaired (fix: e8c81ac, cb42dc8). "
+             "rows, PDF words, windows or window coefficients than the file has bytes. accepted_voice_shape: what acceptance guarantees about the parsed voice (stream count, PDF layouts, GV presence, resolved references) — and, by a kernel-evaluated example, what it does not. The defects (F6, F9) were established by the fault enumeration on the real loader and repaired (fix: e8c81ac, cb42dc8). "
              "Partial: that the real binary never hangs or allocates without bound is observed (fault enumeration under address-space and wall-clock limits), and "
              "the tie between reader model and loader is differential (panic class gates; ok/err drift is reported).",
         note="Trusted: Lean kernel; axioms ⊆ {propext, Classical.choice, Quot.sound}; nom/serde internals are outside the model; OS allocator behaviour is observed.",
